@@ -145,7 +145,7 @@ pub fn run(ctx: &Ctx) {
             ctx.pass();
         }
     }
-    // ---- longer sequences of pseudo-random addresses (4..=17 members, incl. repeated members and members sharing long prefixes)
+    // ---- longer sequences of pseudo-random addresses (4..=17 members, every fourth one 31..1025 members, incl. repeated members and members sharing long prefixes)
     let count = if ctx.thorough { 3000u64 } else { 400 };
     for seed in 1..=count {
         let id = format!("random-addrs/{seed}");
@@ -153,7 +153,9 @@ pub fn run(ctx: &Ctx) {
             continue;
         }
         let mut s = seed.wrapping_mul(0x9E3779B97F4A7C15) | 1;
-        let n = 4 + (rnd(&mut s) % 14) as usize;
+        // every fourth sequence is long: around powers of two and other plausible buffer sizes
+        let long = [31usize, 32, 33, 34, 40, 63, 64, 65, 66, 100, 127, 128, 129, 255, 256, 257, 511, 513, 1000, 1025];
+        let n = if seed % 4 == 0 { long[(seed / 4) as usize % long.len()] } else { 4 + (rnd(&mut s) % 14) as usize };
         let mut seq: Vec<ContentAddress> = Vec::new();
         for i in 0..n {
             let mut a = [0u8; 32];
@@ -180,9 +182,11 @@ pub fn run(ctx: &Ctx) {
         let want_contract = sha(&chunks);
         let got_c = contract_addr::from_predicate_addrs(seq.clone(), &salt);
         let got_s = solution_set_addr::from_solution_addrs(seq.clone());
-        if got_c.0 != want_contract || got_s.0 != want_set {
+        let (mut sl1, mut sl2) = (seq.clone(), seq.clone());
+        let slices_ok = contract_addr::from_predicate_addrs_slice(&mut sl1, &salt).0 == want_contract && solution_set_addr::from_solution_addrs_slice(&mut sl2).0 == want_set;
+        if got_c.0 != want_contract || got_s.0 != want_set || !slices_ok {
             ctx.fail(&id, "contract / set address == SHA-256(sorted member addresses (++ salt)) for longer sequences",
-                format!("{} members (first bytes {:?}): contract_ok={} set_ok={}", n, seq.iter().map(|a| a.0[0]).collect::<Vec<_>>(), got_c.0 == want_contract, got_s.0 == want_set));
+                format!("{} members (first bytes {:?}..): contract_ok={} set_ok={} slice_variants_ok={slices_ok}", n, seq.iter().take(40).map(|a| a.0[0]).collect::<Vec<_>>(), got_c.0 == want_contract, got_s.0 == want_set));
         } else {
             ctx.pass();
         }
